@@ -64,7 +64,20 @@ func scenarioC03(r *Run) {
 	g.DrawAvoid()
 	g.PDIOrders = true
 	runHistory(r, g, histCfg{prop: "C03", maxOps: 3 + r.Ch.Choose(12, "nops"), allowKill: true,
-		checkImage: func(ctx, cause string) { r.CheckBESSImage("C03", ctx, cause) }})
+		checkImage: func(ctx, cause string) { r.CheckBESSImage("C03", ctx, cause) },
+		beforeRestart: func() {
+			// the datapath's unix sockets (downlink-data notifications, end markers)
+			// may not be there when the new incarnation starts: it runs without
+			// them, and must take over the tables all the same
+			switch r.Ch.Choose(4, "unix-socket-missing") {
+			case 1:
+				r.W.Net.UnixOpen["/tmp/notifycp"] = false
+				r.Fault("restart-without-notify-socket")
+			case 2:
+				r.W.Net.UnixOpen["/tmp/pfcpport"] = false
+				r.Fault("restart-without-end-marker-socket")
+			}
+		}})
 	r.CheckNoPanics("C03")
 }
 
